@@ -27,7 +27,7 @@ def teardown(_):
     C.rm_tree(_dir)
 
 
-def make_inputs(d, rng_seed, nsamp=3, chroms=("1", "2")):
+def make_inputs(d, rng_seed, nsamp=3, chroms=("1", "2"), dup_info=False):
     """model, maps, reference panel (VCF.gz), sample info, snplist, haplotype-free genotype file for simphenotype"""
     import random
 
@@ -46,8 +46,10 @@ def make_inputs(d, rng_seed, nsamp=3, chroms=("1", "2")):
     GF.write_vcf_text(d / "ref.vcf", refs, variants, data, contigs=list(chroms))
     GF.compress_index(d / "ref.vcf", d / "ref.vcf.gz")
     with open(d / "info.tab", "w") as f:
-        for s, p in info:
+        for k, (s, p) in enumerate(info):
             f.write(f"{s}\t{p}\n")
+            if dup_info and k % 5 == 1:
+                f.write(f"{s}\t{p}\n")  # sample-info files assembled from several lists name some samples twice
     # simphenotype inputs
     snps = [(f"rs{j}", "1", 10 * (j + 1), ["A", "C"]) for j in range(6)]
     sdata = [[(rnd.randint(0, 1), rnd.randint(0, 1), 1) for _ in snps] for _ in range(12)]
@@ -76,7 +78,7 @@ def gen_inproc(rng, tier):
     for t in range(n):
         # between the two seeded runs something else runs in the same process: nothing, a --region run on the same maps,
         # a run on one chromosome only, the same command with another seed, or another seeded simphenotype call
-        yield {"seed": SEEDS[t % len(SEEDS)], "inputs": rng.randrange(2**31), "burn": [rng.randint(0, 50), rng.randint(51, 500)], "no_repl": t % 2 == 0, "via": "cli" if t % 3 == 0 else "api", "flags": rng.choice([[], ["--pop_field"], ["--pop_field", "--sample_field"]]), "R": rng.randint(2, 3), "interlude": ["region", "chrom2_only", "other_seed", "none", "region_cli", "simphenotype"][t % 6], "region": {"chr": "1", "start": rng.choice([100, 150, 300]), "end": rng.choice([350, 450, 600])}}
+        yield {"seed": SEEDS[t % len(SEEDS)], "inputs": rng.randrange(2**31), "burn": [rng.randint(0, 50), rng.randint(51, 500)], "no_repl": t % 2 == 0, "via": "cli" if t % 3 == 0 else "api", "flags": rng.choice([[], ["--pop_field"], ["--pop_field", "--sample_field"]]), "R": rng.choice([2, 3, 3, 60]), "printopts": t % 4 == 1, "interlude": ["region", "chrom2_only", "other_seed", "none", "region_cli", "simphenotype"][t % 6], "region": {"chr": "1", "start": rng.choice([100, 150, 300]), "end": rng.choice([350, 450, 600])}}
 
 
 def _interlude(case, d):
@@ -142,11 +144,18 @@ def impl_inproc(case):
     from haptools.sim_phenotype import simulate_pt
 
     ph = []
-    for k in (0, 1):
-        np.random.random(case["burn"][k])
-        o = d / f"ph{k}.pheno"
-        simulate_pt(d / "gts.vcf", d / "eff.snplist", num_replications=case["R"], heritability=0.5, seed=case["seed"], output=o, log=SD.silent_log())
-        ph.append(open(o, "rb").read())
+    saved = np.get_printoptions()
+    try:
+        for k in (0, 1):
+            np.random.random(case["burn"][k])
+            if k == 1 and case.get("printopts"):
+                # whatever ran earlier may have changed numpy's process-wide print settings (a common notebook habit)
+                np.set_printoptions(suppress=True, precision=3, sign=" ", floatmode="fixed", linewidth=40, threshold=5)
+            o = d / f"ph{k}.pheno"
+            simulate_pt(d / "gts.vcf", d / "eff.snplist", num_replications=case["R"], heritability=0.5, seed=case["seed"], output=o, log=SD.silent_log())
+            ph.append(open(o, "rb").read())
+    finally:
+        np.set_printoptions(**saved)
     cols = list(zip(*[l.split("\t")[1:] for l in ph[0].decode().splitlines()[1:]]))
     return {"runs": outs, "pheno_identical": ph[0] == ph[1], "replication_columns_distinct": len(set(cols)) == len(cols)}
 
@@ -186,13 +195,13 @@ assert r.exit_code == 0, r.output
 def gen_fresh(rng, tier):
     n = 3 if tier == "quick" else 24
     for t in range(n):
-        yield {"seed": SEEDS[t % len(SEEDS)], "inputs": rng.randrange(2**31), "hashseeds": [rng.randint(1, 10**6), rng.randint(1, 10**6), rng.randint(1, 10**6)], "burn": [0, rng.randint(1, 1000), rng.randint(1, 1000)]}
+        yield {"seed": SEEDS[t % len(SEEDS)], "inputs": rng.randrange(2**31), "hashseeds": [rng.randint(1, 10**6), rng.randint(1, 10**6), rng.randint(1, 10**6)], "burn": [0, rng.randint(1, 1000), rng.randint(1, 1000)], "dup_info": t % 2 == 0}
 
 
 def impl_fresh(case):
     d = _dir / "f"
     C.rm_tree(d)
-    make_inputs(d, case["inputs"])
+    make_inputs(d, case["inputs"], dup_info=case.get("dup_info", False))
     res = []
     for k, (hs, burn) in enumerate(zip(case["hashseeds"], case["burn"])):
         env = dict(os.environ, PYTHONHASHSEED=str(hs), PYTHONDONTWRITEBYTECODE="1")
@@ -229,8 +238,8 @@ CHECK = Check(
             setup=setup,
             teardown=teardown,
             nontrivial=lambda c, o: C.jdump(c),
-            describe=lambda c, o: [f"seed={c['seed']}", c["via"], "no_replacement" if c["no_repl"] else "replacement", "between-runs=" + c.get("interlude", "none")],
-            rule="each seeded command twice in ONE process (seeds 0, 1, 7, 2^32-1, 12345; API entry points and the click runner; with/without --no_replacement, POP/SAMPLE flags), with different amounts of global randomness consumed before each run, whatever the first run left behind, and between the two runs one of: nothing, a --region run on the same maps (API or CLI), a one-chromosome run, the same command with another seed and --no_replacement, another simphenotype call; .bp bytes, parsed VCF content and .pheno bytes must be identical; replication columns must differ",
+            describe=lambda c, o: [f"seed={c['seed']}", c["via"], "no_replacement" if c["no_repl"] else "replacement", "between-runs=" + c.get("interlude", "none"), f"replications={c['R']}"] + (["numpy-printoptions-changed-between-simphenotype-runs"] if c.get("printopts") else []),
+            rule="each seeded command twice in ONE process (seeds 0, 1, 7, 2^32-1, 12345; API entry points and the click runner; with/without --no_replacement, POP/SAMPLE flags), with different amounts of global randomness consumed before each run, whatever the first run left behind, and between the two runs one of: nothing, a --region run on the same maps (API or CLI), a one-chromosome run, the same command with another seed and --no_replacement, another simphenotype call; in a quarter of the cases numpy's process-wide print options are changed between the two simphenotype runs (2, 3 or 60 replications); .bp bytes, parsed VCF content and .pheno bytes must be identical; replication columns must differ",
         ),
         Section(
             name="fresh_processes",
@@ -241,8 +250,8 @@ CHECK = Check(
             setup=setup,
             teardown=teardown,
             nontrivial=lambda c, o: C.jdump(c),
-            describe=lambda c, o: f"seed={c['seed']}",
-            rule="simgenotype and simphenotype (with an --id subset of a .snplist) through the CLI in three fresh interpreter processes per case with different PYTHONHASHSEED values and different prior use of the global generator; .bp, VCF content and .pheno must be identical",
+            describe=lambda c, o: [f"seed={c['seed']}"] + (["sample-info-names-samples-twice"] if c.get("dup_info") else []),
+            rule="simgenotype and simphenotype (with an --id subset of a .snplist) through the CLI in three fresh interpreter processes per case with different PYTHONHASHSEED values and different prior use of the global generator; in half of the cases the sample-info file names some reference samples twice; .bp, VCF content and .pheno must be identical",
         ),
     ],
     trusted=["numpy's generators are deterministic functions of their seed", "pysam reading of the compared VCFs"],
